@@ -195,6 +195,17 @@ def rule_r3(facts, rep, rid="C15-R3"):
             plain_join = [x for x in fb.walk(f.body) if x.get("k") == "mcall" and (fb.callee(x) or "").endswith("RelativePath::join")]
             extra = " (it uses the non-normalising RelativePath::join: `../x` from `dir` becomes the key `dir/../x`, which names no note)" if plain_join and nm.endswith("from_rel_link_url") else ""
             rep.violation(rid, key, "%s is no longer computed with %s%s: reader and writer of relative links use different path algebras, so a written link need not resolve back" % (what, callee, extra), f.loc)
+        if nm == "Key::to_rel_link_url" and calls:
+            # the url is the way to the note's DIRECTORY plus its name: relative(<key itself>) is empty for a note named like the linking directory
+            key2 = f.def_ + "|relative-goes-through-the-directory"
+            args = [fb.show_canon(f, a) for x_ in calls for a in x_.get("args", [])]
+            via_dir = any("parent()" in a or a.strip("&") in ("b0", "b0.clone()") for a in args) and any(
+                y.get("k") == "mcall" and y["name"] == "join" for y in fb.walk(f.body)) and any(y.get("k") == "mcall" and y["name"] == "file_name" for y in fb.walk(f.body))
+            if via_dir:
+                rep.ok(rid, key2, "relative(<directory of the key>).join(<file name>)", loc(f, calls[0]))
+            else:
+                rep.violation(rid, key2, "Key::to_rel_link_url asks for the relative path to the key itself (%s): from the directory `d` the top-level note `d` gets the empty url, so a block "
+                              "reference to it is written `[..]()` and no longer resolves" % args, loc(f, calls[0]))
         # no ad-hoc separator arithmetic in these three fns
         adhoc = []
         for x in fb.walk(f.body):
